@@ -716,22 +716,28 @@ let cmd_tgen seed count syss =
 
 (* ---------- closed compositions ("trees") of crate operators, scripted sink (real crate only) ---------- *)
 
-let rec gen_tree (depth : int) (pullonly : bool) : string =
+(* pull mode (C14): take ends by itself right after its nth item, i.e. its output gives Data AND the end
+   for one Pull; a concat!/flatten above it reacts to that end by re-issuing the Pull, so the premise of
+   C14 ("upstreams answer each Pull with exactly one Data or their end") does not hold at that interface.
+   Such trees are outside the property's quantifier and are not generated in pull mode. *)
+let rec gen_tree ?(notake = false) (depth : int) (pullonly : bool) : string =
   let leaf () =
     let l = rand 4 in
     Printf.sprintf "fi:%s" (if l = 0 then "-" else String.concat "," (List.init l (fun _ -> string_of_int (rand 10)))) in
   if depth <= 0 then leaf ()
   else
-    let sub () = gen_tree (depth - 1 - rand 2) pullonly in
+    let sub () = gen_tree ~notake (depth - 1 - rand 2) pullonly in
+    let subnt () = gen_tree ~notake:(notake || pullonly) (depth - 1 - rand 2) pullonly in
     match rand (if pullonly then 9 else 12) with
     | 0 -> leaf ()
     | 1 -> Printf.sprintf "mp:%d:%d(%s)" (1 + rand 2) (rand 3) (sub ())
     | 2 -> let m = 1 + rand 3 in Printf.sprintf "fl:%d:%d(%s)" m (rand m) (sub ())
+    | 3 when notake -> Printf.sprintf "mp:%d:%d(%s)" (1 + rand 2) (rand 3) (sub ())
     | 3 -> Printf.sprintf "tk:%d(%s)" (1 + rand 3) (sub ())
     | 4 -> Printf.sprintf "sk:%d(%s)" (rand 3) (sub ())
     | 5 -> Printf.sprintf "sc:%d:%d(%s)" (rand 2) (rand 3) (sub ())
-    | 6 | 7 -> let k = 2 + rand 2 in Printf.sprintf "cc(%s)" (String.concat ";" (List.init k (fun _ -> sub ())))
-    | 8 -> Printf.sprintf "fm:%d(%s)" (rand 4) (sub ())
+    | 6 | 7 -> let k = 2 + rand 2 in Printf.sprintf "cc(%s)" (String.concat ";" (List.init k (fun _ -> subnt ())))
+    | 8 -> Printf.sprintf "fm:%d(%s)" (rand 4) (subnt ())
     | 9 -> let k = 2 + rand 2 in Printf.sprintf "mg(%s)" (String.concat ";" (List.init k (fun _ -> sub ())))
     | _ -> Printf.sprintf "cb(%s;%s)" (sub ()) (sub ())
 
